@@ -123,6 +123,28 @@ def _atom(e, inp, b):
                 if flip:
                     op = {'Lt': 'Gt', 'Le': 'Ge', 'Gt': 'Lt', 'Ge': 'Le'}.get(op, op)
                 return {'Eq': ln == n, 'Ne': ln != n, 'Lt': ln < n, 'Le': ln <= n, 'Gt': ln > n, 'Ge': ln >= n}[op]
+        # path.first() / path.get(i) ==/!= Some(&CONST): a checked access, None when the index is beyond the length
+        for a, c in ((l, r), (r, l)):
+            aa = _strip_refs(a)
+            if aa.get('k') == 'call' and short(callee(aa)) in ('first', 'get') and _is_path_local(aa['args'][0], b):
+                i = 0 if short(callee(aa)) == 'first' else (aa['args'][1]['v']['v'] if len(aa['args']) > 1 and aa['args'][1].get('k') == 'lit' else None)
+                cc = _strip_refs(c)
+                if i is None:
+                    raise Unrec('get(<non-literal>)')
+                if cc.get('k') == 'call' and (ctor_name(cc) or '').endswith('Some') and cc['args']:
+                    if i >= inp['len']:
+                        eq = False
+                    else:
+                        eq = _seg_equals(inp['segs'][i], cc['args'][0], b)
+                elif (ctor_name(cc) or str(cc.get('path') or cc.get('ctor_of') or '')).endswith('None'):
+                    eq = i >= inp['len']
+                else:
+                    raise Unrec('checked access compared with something else than Some(..) / None')
+                if e['op'] == 'Eq':
+                    return eq
+                if e['op'] == 'Ne':
+                    return not eq
+                raise Unrec('ordering comparison on a segment')
         # path[i] ==/!= CONST   |   path[i] ==/!= client_id.to_string()
         for a, c in ((l, r), (r, l)):
             aa = a
@@ -134,7 +156,7 @@ def _atom(e, inp, b):
                     raise IndexError(i)
                 seg = inp['segs'][i]
                 co = b.origins(c)
-                if co == {'param(client_id)'} or any('to_string' in x for x in co) and 'client_id' in str(c)[:400]:
+                if co == {'param(client_id)'} or any('to_string' in x for x in co) and ('client_id' in str(c)[:400] or co == {'param(client_id)'}):
                     eq = (seg == 'OWN_ID')
                 else:
                     names = [s for s in SEG_CONSTS if any(x.endswith(s + ')') for x in co)]
@@ -152,6 +174,26 @@ def _atom(e, inp, b):
 
 def _raise(m):
     raise Unrec(m)
+
+
+def _strip_refs(a):
+    while isinstance(a, dict) and (a.get('k') in ('ref',) or (a.get('k') == 'unary' and a.get('op') == 'Deref')):
+        a = a['e']
+    return a
+
+
+def _is_path_local(e, b):
+    return any('split' in x for x in b.origins(e))
+
+
+def _seg_equals(seg, c, b):
+    co = b.origins(c)
+    if co == {'param(client_id)'}:
+        return seg == 'OWN_ID'
+    names = [s_ for s_ in SEG_CONSTS if any(x.endswith(s_ + ')') for x in co)]
+    if len(names) != 1:
+        raise Unrec(f'segment compared with {sorted(co)}')
+    return seg == names[0]
 
 
 def _cond(e, inp, b):
@@ -202,6 +244,32 @@ def _run_chain(body, inp, b):
             continue
         if k in ('return', 'call'):
             return _outcome(st)
+        if k == 'match':
+            # `match path[i] { A | B => <outcome>, _ => <outcome> }`
+            sc = _strip_refs(st['scrut'])
+            if sc.get('k') != 'index' or sc['i'].get('k') != 'lit' or not _is_path_local(sc['e'], b):
+                raise Unrec('match on something else than a path segment')
+            i = sc['i']['v']['v']
+            if i >= inp['len']:
+                raise IndexError(i)
+            seg = inp['segs'][i]
+            for arm in st['arms']:
+                if 'guard' in arm:
+                    raise Unrec('guarded arm')
+                alts = arm['pat']['alts'] if arm['pat'].get('k') == 'por' else [arm['pat']]
+                hit = False
+                for alt in alts:
+                    if alt.get('k') in ('wild', 'bind') or alt.get('k') is None and False:
+                        hit = True
+                    else:
+                        txt = str(alt.get('path') or alt.get('ctor_of') or alt.get('v') or alt)
+                        names = [s_ for s_ in SEG_CONSTS if s_ in txt]
+                        if len(names) != 1:
+                            raise Unrec('arm pattern ' + txt[:60])
+                        hit = hit or seg == names[0]
+                if hit:
+                    return _outcome(arm['body'])
+            raise Unrec('no arm')
         raise Unrec('statement ' + str(k))
     raise Unrec('falls off the end')
 
